@@ -24,6 +24,9 @@ struct Tok {
 	int depth = 0;    // section nesting depth at which the token occurs
 	bool lastv = false;
 	bool kv = false;  // the token lies inside a free-form (key = value) section
+	std::string opt;  // declared name of the option the token belongs to
+	std::string dec;  // decoded bytes of a value / title / argument token (known by construction: the generator is an encoder)
+	bool has_dec = false;
 };
 
 struct Chunk {
